@@ -647,17 +647,13 @@ func (tr *trans) rangeNext(x *ssa.Next, st State) {
 		pos := tr.getState(st, pn)
 		tr.vc.define(okn, "Bool", app("<", pos, app("slen", s)))
 		tr.vc.define(kn, "Int", pos)
-		tr.vc.declConst(vn, "Int")
-		w := tr.vc.fresh("runewidth")
-		tr.vc.declConst(w, "Int")
-		tr.vc.assume(implies(okn, and(app("<=", "1", w), app("<=", w, "4"), app("<=", app("+", pos, w), app("slen", s)))))
-		// ASCII bytes are runes of width 1
-		tr.vc.assume(implies(and(okn, app("<", app("sat", s, pos), "128")), and(eq(w, "1"), eq(vn, app("sat", s, pos)))))
-		tr.vc.assume(implies(and(okn, app(">=", app("sat", s, pos), "128")), and(app(">=", vn, "128"), app("<=", vn, "1114111"))))
-		tr.vc.assume(implies(okn, app(">=", vn, "0")))
+		// the decoded rune and its width are functions of the string and the position
+		tr.vc.declFun("utf8.rune", utf8Decl)
+		tr.vc.define(vn, "Int", app("utf8.rune", s, pos))
+		w := app("utf8.width", s, pos)
 		tr.setState(st, pn, ite(okn, app("+", pos, w), pos))
 		tr.tuples[x] = []Term{okn, kn, vn}
-		tr.note("range over string: ASCII bytes are runes of width 1; other runes have width 1..4 and an arbitrary value >= 128")
+		tr.note("range over string: ASCII bytes are runes of width 1; other runes have width 1..4 and some value >= 128 (a function of string and position)")
 		return
 	}
 	mt := rng.X.Type().Underlying().(*types.Map)
@@ -787,6 +783,18 @@ func (tr *trans) ret(x *ssa.Return, st State) {
 						}
 					}
 					goal = or(alts...)
+					// or: the clause holds here even without the conjuncts that cannot be stated yet
+					var errs3 []string
+					cenv.errs = &errs3
+					cons := cenv.elabBool(imp.Y)
+					if len(errs3) == 0 {
+						var pos []Term
+						for _, a := range alts {
+							pos = append(pos, not(a))
+						}
+						goal = or(goal, implies(and(pos...), cons))
+						okAny = true
+					}
 				}
 				if !okAny {
 					tr.errs = append(tr.errs, errs...)
